@@ -3,7 +3,8 @@ SPEC = {
     "id": "C01",
     "level": "other",
     "sidecars": ["utils"],
-    "functions": [U + "normpath", U + "unsplit_netloc"],
+    "functions": [U + "normpath", U + "unsplit_netloc", "ural/canonicalize_url.py:canonicalize_url"],
+    "function_sidecars": {"ural/canonicalize_url.py:canonicalize_url": ["canonicalize_url"]},
     "bounded": ["bcheck.c01"],
     "explanation": (
         "Deciding step is BOUNDED: canonicalize_url is compared, component by component, with an independent denotation (urllib.parse.urlsplit "
@@ -13,8 +14,15 @@ SPEC = {
         "'same resource' is a relation through urlsplit, regex substitution and the codec machinery; no contract within pyvc's reach "
         "(EUF + integers + sequences; string/regex theories time out, DESIGN.md section 1) decides it. Deductive extras discharged for all "
         "inputs: normpath never raises (pop guarded) and its resolved segment list contains no '.', './', '..', '../' segment; "
-        "unsplit_netloc never raises for a non-None hostname."),
+        "unsplit_netloc never raises, whatever parts are absent (a missing host with userinfo / port raised TypeError before fix 11f42e7: found by "
+        "this contract). canonicalize_url itself is under a record-level contract (contracts/canonicalize_url.py): with every helper an "
+        "uninterpreted function of its arguments, the returned record is proved to be, for ALL inputs and option settings: scheme = parsed scheme; "
+        "port dropped exactly when it is the scheme's default (http/80, https/443); host = lower-cased IDNA-decoded parsed host; fragment absent "
+        "iff strip_fragment, else unquoted; path unquoted FIRST, then normpath, trailing slash (or trailing dot segment) kept, '' vs '/' by presence "
+        "of query / fragment; userinfo unquoted; in quoted mode every component = safely_quote(the unquoted mode's component) (C02's 'two views'); "
+        "what is parsed is the cleaned input with a scheme ensured; only urlsplit's ValueError escapes."),
     "assumptions": [
+        "record-level contract: helpers (urlsplit, normpath, safely_unquote_*, safely_quote*, unsplit_netloc, urlunsplit ...) are deterministic total functions of their arguments; reading splitted.port is treated as total (it raises ValueError for out-of-range ports: covered as 'unparseable' by the bounded check)",
         "the reference denotation treats a segment as a dot segment when its DECODED form is '.' or '..' (RFC 3986 6.2.2.2) and squeezes empty segments, as the statement says",
         "urllib.parse.urlsplit defines what 'parses' means and how a string splits into components (trusted)",
         "control characters / surrounding whitespace are removed from the input before it is interpreted (the library's documented cleaning pass)",
